@@ -508,6 +508,11 @@ impl M {
                     self.mark("index := 0u8");
                     return;
                 }
+                if self.rule == Rule::IndexNotUsize && self.hit() {
+                    **i = ex(ExprKind::Bin(BinOp::Lt, Box::new(lit_u8(0)), Box::new(lit_u8(1))));
+                    self.mark("index := 0u8 < 1u8");
+                    return;
+                }
             }
             _ => {}
         }
@@ -530,7 +535,10 @@ impl M {
                 self.expr(s);
                 for (p, a) in arms {
                     self.pat(p, "match");
+                    let keep = self.outer_names.len();
+                    pat_names(p, &mut self.outer_names);
                     self.expr(a);
+                    self.outer_names.truncate(keep);
                 }
             }
             ExprKind::Block(ss) => self.stmts(ss),
@@ -643,6 +651,15 @@ impl M {
     }
 
     fn stmts(&mut self, ss: &mut Vec<Stmt>) {
+        // names bound by a let at this level count as visible in everything nested in this list
+        let keep_names = self.outer_names.len();
+        for s in ss.iter() {
+            match &s.kind {
+                StmtKind::Let(p, ..) => pat_names(p, &mut self.outer_names),
+                StmtKind::LetMut(n, ..) => self.outer_names.push(n.clone()),
+                _ => {}
+            }
+        }
         let mut i = 0;
         while i < ss.len() {
             if self.done.is_some() {
@@ -725,6 +742,11 @@ impl M {
                                 if self.hit() {
                                     *ix = lit_u8(0);
                                     self.mark("assignment index := 0u8");
+                                    return;
+                                }
+                                if self.hit() {
+                                    *ix = ex(ExprKind::Bin(BinOp::Lt, Box::new(lit_u8(0)), Box::new(lit_u8(1))));
+                                    self.mark("assignment index := 0u8 < 1u8");
                                     return;
                                 }
                             }
@@ -814,17 +836,34 @@ impl M {
                 StmtKind::For(p, e, b) => {
                     self.pat(p, "for");
                     self.expr(e);
+                    let keep = self.outer_names.len();
+                    pat_names(p, &mut self.outer_names);
                     self.stmts(b);
+                    self.outer_names.truncate(keep);
                 }
                 StmtKind::ForJoin(p, a, b, body) => {
                     self.pat(p, "for-join");
                     self.expr(a);
                     self.expr(b);
+                    let keep = self.outer_names.len();
+                    pat_names(p, &mut self.outer_names);
                     self.stmts(body);
+                    self.outer_names.truncate(keep);
                 }
             }
             i += 1;
         }
+        self.outer_names.truncate(keep_names);
+    }
+}
+
+/// the names a pattern binds (they stay visible in the whole construct the pattern belongs to)
+fn pat_names(p: &Pat, out: &mut Vec<String>) {
+    match p {
+        Pat::Var(n) => out.push(n.clone()),
+        Pat::Tup(ps) | Pat::EnumTup(_, _, ps) => ps.iter().for_each(|q| pat_names(q, out)),
+        Pat::Struct(_, fs, _) => fs.iter().for_each(|(_, q)| pat_names(q, out)),
+        _ => {}
     }
 }
 
@@ -1323,7 +1362,16 @@ pub fn run(tier: Tier) -> i32 {
             ("usize", "", true),
         ];
         // H = hole, T = type; x and y are parameters of type T, c is a bool
-        let templates: [(&str, &str, &str); 32] = [
+        let templates: [(&str, &str, &str); 40] = [
+            // positions whose expected type is fixed (usize index, u8 shift amount): only the twin with that T is accepted
+            ("index", "T", "  let a = [x, y];\n  a[H]\n"),
+            ("index of a parameter array", "T", "  let a = [x; 3];\n  a[H] ^ a[y]\n"),
+            ("nested index", "T", "  let a = [[x, y], [y, x]];\n  a[0][H]\n"),
+            ("index then field", "T", "  let a = [(x, c), (y, c)];\n  a[H].0\n"),
+            ("assign at index", "[T; 2]", "  let mut a = [x, y];\n  a[H] = x;\n  a\n"),
+            ("assign at nested index", "[[T; 2]; 2]", "  let mut a = [[x, y], [y, x]];\n  a[1][H] = x;\n  a\n"),
+            ("shift amount", "T", "  x << H\n"),
+            ("shift amount of >>", "T", "  x >> H\n"),
             ("condition", "T", "  if H { x } else { y }\n"),
             ("condition of an if statement", "T", "  let mut r = x;\n  if H {\n    r = y;\n  }\n  r\n"),
             ("x==H", "bool", "  x == H\n"),
@@ -1362,7 +1410,31 @@ pub fn run(tier: Tier) -> i32 {
         for (tname, tdefs, is_num) in types {
             // (how the hole is written, statements put before the body)
             let mut holes: Vec<(&str, &str)> = if is_num {
-                vec![("true", ""), ("()", ""), ("[1]", ""), ("kb", "  let kb = true;\n"), ("(1, 2)", ""), ("!true", ""), ("!kb", "  let kb = true;\n"), ("!(kb == kb)", "  let kb = true;\n"), ("!(kb && kb)", "  let kb = true;\n")]
+                vec![
+                    ("true", ""),
+                    ("()", ""),
+                    ("[1]", ""),
+                    ("kb", "  let kb = true;\n"),
+                    ("(1, 2)", ""),
+                    ("!true", ""),
+                    ("!kb", "  let kb = true;\n"),
+                    ("!(kb == kb)", "  let kb = true;\n"),
+                    ("!(kb && kb)", "  let kb = true;\n"),
+                    // Boolean-valued operators and constructs at the root of the mismatching expression
+                    ("(k8 < k8)", "  let k8 = 1u8;\n"),
+                    ("(k8 == k8)", "  let k8 = 1u8;\n"),
+                    ("(k8 != 2u8)", "  let k8 = 1u8;\n"),
+                    ("(kb && kb)", "  let kb = true;\n"),
+                    ("(kb || false)", "  let kb = true;\n"),
+                    ("(kb ^ kb)", "  let kb = true;\n"),
+                    ("({ kb })", "  let kb = true;\n"),
+                    ("({ k8 >= k8 })", "  let k8 = 1u8;\n"),
+                    ("(if kb { k8 == k8 } else { k8 != k8 })", "  let kb = true;\n  let k8 = 1u8;\n"),
+                    ("(if kb { kb } else { false })", "  let kb = true;\n"),
+                    ("(match kb { true => k8 < k8, false => kb })", "  let kb = true;\n  let k8 = 1u8;\n"),
+                    ("(k8 as u16)", "  let k8 = 1u8;\n"),
+                    ("(1u16 + 1u16)", ""),
+                ]
             } else {
                 vec![
                     ("1", ""),
